@@ -13,6 +13,12 @@ parts.append("\n----------------------------------------------------------------
 for f in sorted(glob.glob(os.path.join(d, "C[0-9][0-9].md"))):
     parts.append(open(f).read().rstrip() + "\n\n")
 parts.append("---------------------------------------------------------------------------------------------------\n\n")
-parts.append(open(os.path.join(d, "99_tail.md")).read())
+import json
+rows = ["| id | change (written blind to /verif) | needs, to manifest | result against the checks |", "|---|---|---|---|"]
+for m in sorted(glob.glob(os.path.join(root, "seeded", "*", "meta.json"))):
+    j = json.load(open(m))
+    rows.append("| %s | %s | %s | %s |" % (os.path.basename(os.path.dirname(m)), j["change"].replace("|", "\\|"),
+                                          j["needs_to_manifest"].replace("|", "\\|"), j["result"].replace("|", "\\|")))
+parts.append(open(os.path.join(d, "99_tail.md")).read().replace("{{SEEDED_TABLE}}", "\n".join(rows)))
 open(os.path.join(root, "DESIGN.md"), "w").write("".join(parts))
 print("DESIGN.md assembled:", sum(len(p) for p in parts), "bytes")
